@@ -59,7 +59,19 @@ EDGE = {
     "union_different_arity": ("ansi", ["INSERT INTO zqt1 SELECT ca, cb FROM zqt2 UNION ALL SELECT cc FROM zqt3"]),
     "copy_paths": ("postgres", ["COPY zqt1 FROM 's3://bucket/zqp1'"]),
     "insert_overwrite_directory": ("sparksql", ["INSERT OVERWRITE DIRECTORY 'hdfs://nn/zqp1' SELECT ca FROM zqt1"]),
+    "update_only": ("postgres", ["UPDATE ONLY zqt1 SET ca = zqt2.cb FROM zqt2"]),
+    "update_only_no_from": ("postgres", ["UPDATE ONLY zqt1 SET ca = cb"]),
+    # a file (Path) in the FROM group of a statement that also writes: the alias mapping is built over Table | SubQuery | Path
+    "ctas_from_file": ("sparksql", ["CREATE TABLE zqt1 AS SELECT ca FROM csv.`/data/zqp1`"]),
+    "overwrite_dir_from_file": ("sparksql", ["INSERT OVERWRITE DIRECTORY 'hdfs://nn/zqp1' SELECT ca FROM json.`/data/zqp2`"]),
+    "file_in_subquery": ("sparksql", ["INSERT INTO zqt1 SELECT d.ca FROM (SELECT ca FROM parquet.`/data/zqp1`) AS d"]),
+    "file_join_table": ("databricks", ["INSERT INTO zqt1 SELECT a.ca, b.cb FROM parquet.`/data/zqp1` AS a JOIN zqt2 AS b ON a.id = b.id"]),
 }
+# every dialect-specific statement kind of C01 is under the error contract too
+from checks.c01 import RAW as _C01_RAW
+
+for _n, (_d, _q, _e) in _C01_RAW.items():
+    EDGE.setdefault("kind_" + _n.split("/")[0], (_d, [_q]))
 
 
 def accessors(lr):
